@@ -20,7 +20,10 @@ var h10Methods = []string{
 	"DisableFocus", "Colors", "CharacterSet", "RegisterRuneFallback", "UnregisterRuneFallback", "CanDisplay",
 	"HasMouse", "HasKey", "SetSize", "Beep", "SetTitle", "SetClipboard", "GetClipboard", "LockRegion",
 	"PostEvent", "HasPendingEvent", "PollEvent", "Suspend+Resume", "Fini",
+	"input:mouse", "window-resize+Show",
 }
+
+var h10Env *h01Env // the environment of the screen under analysis (tty access for the two pseudo-methods)
 
 func h10Call(s Screen, k int, sym bool) {
 	x, y, r := 0, 0, rune('x')
@@ -104,6 +107,27 @@ func h10Call(s Screen, k int, sym bool) {
 		_ = s.Resume()
 	case "Fini":
 		s.Fini()
+	case "input:mouse":
+		// terminal input handled by the library's own goroutines: an SGR mouse report
+		if h10Env != nil {
+			select {
+			case h10Env.tty.inCh <- []byte("\x1b[<0;2;1M"):
+			default:
+			}
+			vsymRunBlocked()
+			for k := 0; k < 3 && s.HasPendingEvent(); k++ {
+				s.PollEvent()
+			}
+		}
+	case "window-resize+Show":
+		if h10Env != nil {
+			if h10Env.tty.w == 3 {
+				h10Env.tty.w = 4
+			} else {
+				h10Env.tty.w = 3
+			}
+			s.Show()
+		}
 	}
 }
 
@@ -114,6 +138,7 @@ func H10_lockset() {
 	e.s.SetContent(0, 0, 'a', nil, StyleDefault)
 	e.s.Show()
 	vsymTrack(e.t)
+	h10Env = e
 	k := vsymChoice("method", len(h10Methods))
 	vsymNote("method", strconv.Itoa(k)+":"+h10Methods[k])
 	h10Call(e.s, k, true)
@@ -132,6 +157,7 @@ func H10_race_replay() {
 		e := h01New("xterm-256color", 3, 2, false)
 		e.s.SetContent(0, 0, 'a', nil, StyleDefault)
 		e.s.Show()
+		h10Env = e
 		var wg sync.WaitGroup
 		for _, k := range []int{a, b} {
 			k := k
